@@ -2,6 +2,7 @@
 #[allow(unexpected_cfgs)]
 mod bridge;
 mod c_addr;
+mod c_bus;
 mod c_conn;
 mod c_dispatch;
 mod c_drop;
@@ -12,6 +13,7 @@ mod c_match;
 mod c_msg;
 mod c_names;
 mod c_objsrv;
+mod c_proxy;
 mod c_sasl;
 mod c_serial;
 mod c_xml;
@@ -106,6 +108,22 @@ fn main() {
         "C30" => {
             run.rule = "(a) method, getter and setter handlers (spawn default and spawn = false, &self and &mut self) that register / remove objects and emit signals through the object server, driven by 1..6 pipelined calls incl. Properties.Get/Set/GetAll; (b) a call fed 0..7 scheduler steps after at() returned, on a connection whose object server did or did not exist before; harness-owned scheduler; oracle: every call is answered before the system comes to rest (hang = nothing runnable with a call unanswered); handlers of spawn = false interfaces make no D-Bus method calls (documented precondition); non-trivial = every re-entrance case, and on-demand cases with a delay of at most 3 steps".into();
             vec![spec("reenter", 8_000, 200_000, 120, c_dispatch::c30_reenter_case), spec("setup", 8_000, 200_000, 60, c_dispatch::c30_setup_case)]
+        }
+        "C31" => {
+            run.rule = "a caching proxy (one property marked uncached) built on a bus connection against a fake service that answers GetAll with its state at that moment, having emitted 0..3 PropertiesChanged signals before the reply and emitting 0..5 after it (changed / invalidated, for the proxied and for another interface, for the uncached property), the later ones delivered either in the same burst as the reply or after the proxy was built; harness scheduler; oracle: once everything has come to rest cached_property() of each property == fold(snapshot, later signals in receive order), invalidation clears, other interfaces and the uncached property never affect it; non-trivial = a change of a cached property on each side of the GetAll reply".into();
+            vec![spec("cache", 8_000, 250_000, 100, c_proxy::c31_case)]
+        }
+        "C32" => {
+            run.rule = "a proxy signal stream to a well-known name on a bus connection over the fake bus: generated initial owner (or none), then 1..14 events: signals from 3 senders (unicast to us), genuine NameOwnerChanged for the name (to another owner or to none) and for another name, NameOwnerChanged forged by a peer; the system is run to rest at generated points; oracle: the stream yields exactly the signals whose sender owned the name when they were received, per the bus driver's messages only; non-trivial = an ownership change (genuine or forged) between two signals from different senders".into();
+            vec![spec("owner", 8_000, 250_000, 120, c_proxy::c32_case)]
+        }
+        "C36" => {
+            run.rule = "a bus connection (client handshake + Hello against a fake bus) and histories of request_name_with_flags (with/without AllowReplacement; the fake bus answers with each reply code), release_name (each reply code), NameAcquired / NameLost from the bus driver (only where a conformant bus could send them) and forged ones from another sender; oracle = bookkeeping model: a request is answered locally with AlreadyOwner / InQueue exactly when the bus last granted / queued the name and has not taken it away, otherwise the bus is asked and its answer returned; release asks the bus exactly when the name is held or queued and succeeds when the bus confirms; forged signals change nothing; AddMatch/RemoveMatch never doubled; non-trivial = a name changing state at least twice, or a forged signal in the history".into();
+            vec![spec("names", 5_000, 150_000, 120, c_bus::c36_case)]
+        }
+        "C37" => {
+            run.rule = "a bus connection over the fake bus (which records AddMatch / RemoveMatch) and histories of creating streams for 4 rules (3 signal rules, 1 method-call rule), cloning them, dropping / async-dropping them, creating proxies and proxy signal streams to a unique and to a well-known name; after every operation the system is run to rest; oracle: AddMatch never for a registered rule, RemoveMatch never for an unregistered one, the registered set equals the distinct signal rules with a live subscriber (incl. the owner-change rule of well-known-name signal streams), empty after everything is dropped; non-trivial = a drop while another subscriber of the same rule lives".into();
+            vec![spec("matches", 5_000, 150_000, 160, c_bus::c37_case)]
         }
         "C38" => {
             run.level = "fault_enumeration".into();
